@@ -47,19 +47,19 @@ type HistResult struct {
 }
 
 type posRunner struct {
-	props     map[string]bool
-	d         *chain.Driver
-	cur       chain.View
-	res       *HistResult
-	direct    *big.Int // coins sent to the pool address directly
-	stop      bool
-	height    int64
-	now       time.Time
-	voteHist  map[string][]bool // per validator: outcomes since last reset (C08 history oracle)
-	anyOK     bool
+	props      map[string]bool
+	d          *chain.Driver
+	cur        chain.View
+	res        *HistResult
+	direct     *big.Int // coins sent to the pool address directly
+	stop       bool
+	height     int64
+	now        time.Time
+	voteHist   map[string][]bool // per validator: outcomes since last reset (C08 history oracle)
+	anyOK      bool
 	setChanged bool
-	outcome   []string
-	inPrelude bool
+	outcome    []string
+	inPrelude  bool
 }
 
 func (r *posRunner) want(p string) bool { return r.props[p] }
